@@ -16,11 +16,12 @@ LET = {
     "C": lambda n: Converter(n, vo=3.3, eff=0.9, iq=1e-3, iis=1e-4),
     "I": lambda n: ILoad(n, ii=0.1, iis=1e-3),
     "M": lambda n: PMux(n, rs=0.1, ig=1e-4),
+    "m": lambda n: PMux(n, rs=[0.1, 0.25], ig=1e-4),   # per-input resistances: the list may be shorter / longer than the inputs it is wired to
     "S": lambda n: Source(n, vo=5.0, rs=0.05),
 }
 KIND_OF = {"R": "RLoss", "C": "Converter", "I": "ILoad", "M": "PMux", "S": "Source"}
 LETTER_OF = {v: k for k, v in KIND_OF.items()}
-SAME_KIND = {"W": "R"}
+SAME_KIND = {"W": "R", "m": "M"}
 
 SEEDS = {
     "single": [],
@@ -32,12 +33,16 @@ SEEDS = {
     "chain": [["ac", "S1", "R", "A1", ""], ["ac", "A1", "C", "A2", ""], ["ac", "A2", "I", "A3", ""], ["anp", "params"]],   # an analysis was run before the edits start
     "mux3": [["ac", "S1", "R", "A1", ""], ["as", "S2", ""], ["ac", ["A1", "S1", "S2"], "M", "MX", ""], ["ac", "MX", "I", "A3", ""], ["ac", "A1", "I", "A4", ""]],
     "phases": [["ac", "S1", "C", "A1", ""], ["ac", "A1", "I", "A2", ""], ["sp", [["p", 1.0], ["q", 2.0]]], ["cp", "A1", ["p"], "l"], ["cp", "A2", [["p", 0.05]], "d"]],
+    # a mux one of whose inputs (A3) is a grandchild of another input (A1): deleting the element between them re-links A3 with a NEWER edge
+    "muxdeep": [["ac", "S1", "R", "A1", ""], ["ac", "A1", "R", "A2", ""], ["ac", "A2", "C", "A3", ""], ["ac", ["A3", "A1"], "M", "MX", ""], ["ac", "MX", "I", "A4", ""]],
+    # a mux whose inputs were given by RAIL name (S1 owns rail Q0, A1 owns QA)
+    "railmux": [["ac", "Q0", "C", "A1", "QA"], ["as", "S2", ""], ["ac", ["QA", "S2"], "M", "MX", ""], ["ac", "MX", "I", "A3", ""]],
     "freed": [["ac", "S1", "R", "A1", ""], ["ac", "A1", "I", "A2", ""], ["ac", "S1", "C", "A3", ""], ["dc", "A1", True]],
 }
 
 
 def mk(seed):
-    if seed == "rails":
+    if seed in ("rails", "railmux"):
         return System("t", LET["S"]("S1"), rail="Q0")
     return System("t", LET["S"]("S1"))
 
@@ -174,6 +179,12 @@ def ops(s, budget, letters="RCIM", phase_ops=True, gone=(), analysis_op=False):
             if a != b:
                 add(0, ["ac", [a, b], "M", fresh, ""])
                 add(1, ["ac", [a, b], "R", fresh, ""])
+    if len(names) >= 2 and "M" in letters:  # a mux with a per-input resistance LIST (2 entries) on 1, 2 and 3 inputs
+        add(1, ["ac", names[0], "m", fresh, ""])
+        add(1, ["ac", [names[0], names[-1]], "m", fresh, ""])
+        add(1, ["ac", [names[-1], names[0]], "m", fresh, frail])
+        if len(names) >= 3:
+            add(2, ["ac", [names[0], names[1], names[-1]], "m", fresh, ""])
     if len(names) >= 3:  # three-input muxes (an input that is the child of another input included)
         for a, b, c in itertools.permutations(names[:3], 3):
             add(1, ["ac", [a, b, c], "M", fresh, ""])
@@ -191,8 +202,8 @@ def ops(s, budget, letters="RCIM", phase_ops=True, gone=(), analysis_op=False):
         if rails:
             add(1, ["ac", [names[-1], rails[0]], "M", fresh, ""])
     for c, t in targets:
-        for L in letters + "S":
-            kc = 0 if L in "RC" else 1
+        for L in letters + "S" + ("m" if "M" in letters else ""):
+            kc = 0 if L in "RC" else (1 if L != "m" else 2)
             add(c + kc, ["cc", t, L, t, ""])
             if L == letters[0]:
                 add(c + kc + 1, ["cc", t, L, t, "", "g2"])
@@ -248,7 +259,7 @@ def kstruct(s):
 
 
 def model_init(seed):
-    m = {"comps": {"S1": dict(letter="S", parents=[], rail="Q0" if seed == "rails" else "", group="", pc="{}")}, "phases": "{}"}
+    m = {"comps": {"S1": dict(letter="S", parents=[], rail="Q0" if seed in ("rails", "railmux") else "", group="", pc="{}")}, "phases": "{}"}
     ms = [m]
     for op in SEEDS[seed]:
         ms = model_apply(ms, op)
